@@ -12,7 +12,10 @@ def spec(**kw):
              autosync=0, keys=3, Q=2, A=1, D=6, alpha="basic", lru=0, pure=0, max=3000000)
     d.update(kw)
     order = ["kind", "cap", "w", "ttl", "tti", "hash", "tick", "beyond", "autosync", "keys", "Q", "A", "D", "alpha", "lru", "pure", "max"]
-    return ",".join("%s=%s" % (k, d[k]) for k in order)
+    s = ",".join("%s=%s" % (k, d[k]) for k in order)
+    if d.get("pre"):
+        s += ",pre=%s" % d["pre"]
+    return s
 
 
 def seqjob(jid, **kw):
@@ -33,7 +36,7 @@ def c01_space(tier, alpha="basic", expiries=None, caps=None, with_collide=True, 
               dU=None, dS=None, q=None, a=None, keysU=3, keysS=3):
     """The family of configurations C01 quantifies over (reused by C03/C07/C10/C11)."""
     thorough = tier == "thorough"
-    expiries = expiries if expiries is not None else [dict(), dict(ttl=2), dict(tti=2)]
+    expiries = expiries if expiries is not None else [dict(), dict(ttl=2), dict(tti=2), dict(ttl=3, tti=2)]
     caps = caps if caps is not None else ["none", 0, 1, 2]
     hashes = ["spread", "collide"] if with_collide else ["spread"]
     out = []
@@ -109,7 +112,9 @@ def lru_space(tier):
             # expires, but the timestamp-carrying code paths decide recency)
             if h == "spread" and cap <= 3:
                 for ex in (dict(ttl=2), dict(tti=2), dict(ttl=3, tti=2)):
-                    k2 = dict(kw, **ex)
+                    # ... and with the clock moving (expiry purge, then the excess: the
+                    # prediction purges what the model knows to be past its deadline)
+                    k2 = dict(kw, A=2, D=kw["D"] - (0 if w == 0 else 1), **ex)
                     out.append(seqjob(name("lru", k2), **k2))
     return out
 
@@ -139,7 +144,9 @@ def c08_space(tier):
     thorough = tier == "thorough"
     out = []
     for kind in ("U", "S"):
-        for cap, w, ex in itertools.product([1, 2], [0, 1], [dict(), dict(ttl=2, tti=2)]):
+        for cap, w, ex in itertools.product([0, 1, 2], [0, 1], [dict(), dict(ttl=2, tti=2)]):
+            if cap == 0 and ex:
+                continue
             kw = dict(kind=kind, cap=cap, w=w, alpha="stress", keys=3, **ex)
             if kind == "U":
                 kw.update(D=9 if thorough else 6, A=2 if ex else 0)
@@ -217,6 +224,19 @@ def longruns(patterns, lru=0):
     return out
 
 
+def from_full(prop, tier):
+    """Searches started from non-initial states: a cache filled to its capacity."""
+    thorough = tier == "thorough"
+    out = []
+    for kind in ("U", "S"):
+        for cap, pre in ((2, "ins:0:1+ins:1:1"), (3, "ins:0:1+ins:1:2"), (3, "ins:0:1+ins:1:1+ins:2:1")):
+            p = pre + ("+sync" if kind == "S" else "")
+            for rg in (regimes() if kind == "S" else [dict()]):
+                kw = dict(kind=kind, cap=cap, w=1, alpha="weights", keys=3, D=(6 if thorough else 5) if kind == "S" else (7 if thorough else 5), Q=2, A=0, pre=p, **rg)
+                out.append({"id": name("full-" + prop.lower(), {k: v for k, v in kw.items() if k != "pre"}) + "-" + pre.replace(":", "").replace("+", "_"), "argv": ["seqx", spec(**kw), "@JOURNAL@"]})
+    return out
+
+
 def longruns_expiry(prop):
     out = []
     for kind in ("U", "S"):
@@ -236,6 +256,8 @@ def jobs_for(prop, tier):
     j = _jobs_for(prop, tier)
     if prop in ("C03", "C05", "C06"):
         j = j + longruns_expiry(prop)
+    if prop in ("C03", "C04", "C10", "C11", "C08"):
+        j = j + from_full(prop, tier)
     # long scripted histories through the same per-step oracles (thresholds beyond any
     # exhaustive depth: sketch enabled at half full, 128-word table, batches)
     if prop == "C14":
